@@ -17,7 +17,7 @@ def make(tier, seed):
 
 
 OPTS = [None, None, {"relativize": False}, {"fit_to_screen": False}, {"video_width": 640, "video_height": 360},
-        {"video_width": 640, "video_height": 360, "fit_to_screen": False}]
+        {"video_width": 640, "video_height": 360, "fit_to_screen": False}, {"relativize": False, "fit_to_screen": False}]
 
 
 def pristine(jobs, hashseed):
@@ -35,6 +35,22 @@ def explore(chk):
     jobs = []
     for h in range(H):
         sets = [setbuild.rand_desc(rng, unbalanced=rng.choice([0.0, 0.3, 0.6]), absolute=rng.choice([0.0, 0.2, 0.5])) for _ in range(rng.randint(1, 3))]
+        for d in sets:
+            r = rng.random()
+            if r < 0.3:
+                # document styles + a set-level layout with padding (the SAMI writer folds the padding into the style rules)
+                d["styles"] = {"p": {"color": "#ffffff"}, "encc": {"lang": "en-US", "font-family": "Arial"}}
+                d["layout"] = {"padding": ["4%", "4%", "10%", "10%"]}
+            elif r < 0.55:
+                # several classes on one element whose rules disagree: the merge order must not depend on the hash seed
+                d["styles"] = {"emphasis": {"italics": True, "bold": True}, "upright": {"italics": False}, "under": {"underline": True, "bold": False}}
+                for L in d["langs"]:
+                    for c in L["caps"]:
+                        if rng.random() < 0.6:
+                            c["style"] = {"classes": rng.sample(["emphasis", "upright", "under"], rng.randint(2, 3))}
+                        for n in c["nodes"]:
+                            if n[0] == "S" and rng.random() < 0.5:
+                                n[2] = {"classes": ["emphasis", "upright"]}
         nshared = rng.randint(1, 2)
         shared = [(rng.choice(setbuild.WRITERS), rng.choice(OPTS)) for _ in range(nshared)]
         ops = []
